@@ -24,6 +24,7 @@ fragment SH_PNAME   : 'p' [0-9]+ ;
 fragment SH_ANAME   : 'A' [0-9]+ ;
 fragment SH_VERSION : [0-9]+ '.' [0-9]+ ;
 fragment SH_DEVICE  : [0-9A-Za-z._]+ ;
+fragment SH_ANYTEXT : (~[\n])* ;
 """
 FORMS = r"""
 fragment F_INT      : '-'? INT ;
@@ -60,15 +61,20 @@ class Lang:
         return gm.lexer_rule_nfa(self.G, self.G.R[name], inline=True)
 
     def of_pieces(self, pieces):
-        """pieces: list of ('lit', text) | ('hole', shape name)  -> NFA of the concatenation"""
-        items = []
-        for kind, v in pieces:
-            if kind == "lit":
-                if v:
-                    items.append(g4.Lit(v))
-            else:
-                items.append(g4.Ref(v))
-        rule = g4.Rule("tmp", g4.Alt([g4.Seq(items)], [None], [None]))
+        """pieces: list of ('lit', text) | ('hole', shape name) | ('alt', [pieces, ...])  -> NFA of the concatenation"""
+        def items_of(ps):
+            items = []
+            for p_ in ps:
+                kind, v = p_[0], p_[1]
+                if kind == "lit":
+                    if v:
+                        items.append(g4.Lit(v))
+                elif kind == "alt":
+                    items.append(g4.Alt([g4.Seq(items_of(a)) for a in v], [None] * len(v), [None] * len(v)))
+                else:
+                    items.append(g4.Ref(v))
+            return items
+        rule = g4.Rule("tmp", g4.Alt([g4.Seq(items_of(pieces))], [None], [None]))
         return gm.lexer_rule_nfa(self.G, rule, inline=True)
 
     def of_expr(self, text):
